@@ -79,6 +79,17 @@ def run(rep, props, replay=None):
         t = runq.add(f"mclose {C.qlit(1e-12 * sc * sv + 1e-10 * sv * sv)} (cov_sym {m}%nat {C.qmat(X)}) {C.qmat(cov)}")
         todo.append((t, "covariance", kind, X))
         monitors_cov(rep, rng, d, cov, x, X)
+        if i % 3 == 0:
+            # the same curves in small units (times 2^-22, exact): the sample mean and the sample covariance have no absolute scale
+            c2 = 2.0 ** -22
+            ds = fd.dense(x, X * c2)
+            mu_s, cov_s = np.asarray(ds.mean().values)[0], np.asarray(ds.covariance().values)[0]
+            rep.case(("small-units", X.tobytes()), kind="scale/small-units")
+            if np.max(np.abs(mu_s - c2 * mu)) > 1e-12 * c2 * sc or np.max(np.abs(cov_s - c2 * c2 * cov)) > 1e-10 * c2 * c2 * max(sv * sv, 1e-300):
+                rep.violation("the same curves in small units (times 2^-22): the mean is not 2^-22 times, or the covariance not 2^-44 times, "
+                              f"that of the original curves (max deviation of the covariance {np.max(np.abs(cov_s - c2 * c2 * cov)):.3g} "
+                              f"against entries up to {np.max(np.abs(c2 * c2 * cov)):.3g}): not the sample covariance of small curves",
+                              {"x": C.hexf(x), "X": C.hexf(X), "factor": c2})
         monitors_history(rep, d, mu, cov, x, X, i)
         for order in (sorted({1, 2, int(rng.integers(3, 11)), min(m, 10), min(max(m - 1, 1), 10)}) if quick else range(1, 11)):
             try:
